@@ -43,8 +43,13 @@ def unit_deps(gen, unit):
 
 
 def closure(units, digit, mode):
-    gen = Generator(RUN.load_expansion(mode), RUN.load_overlay(), digit, mode)
-    gen.build_items()
+    gens = {}
+
+    def gen_for(tag):
+        if tag not in gens:
+            gens[tag] = Generator(RUN.load_expansion(mode), RUN.load_overlay(), tag, mode)
+            gens[tag].build_items()
+        return gens[tag]
     seen = []
     todo = list(units)
     while todo:
@@ -52,7 +57,9 @@ def closure(units, digit, mode):
         if u in seen:
             continue
         seen.append(u)
-        for d in sorted(unit_deps(gen, u)):
+        # pair units: one splitting and one packing instantiation (their entries differ by `pairs=`)
+        tags = ['u64xu32', 'u32xu64'] if u in P.PAIR_UNITS else [digit]
+        for d in sorted(set().union(*[unit_deps(gen_for(t), u) for t in tags])):
             if d not in seen:
                 todo.append(d)
     return seen
@@ -85,12 +92,12 @@ def run_property(pid, tier, seed=0):
             if (u, m) not in all_units:
                 all_units.append((u, m))
     for (u, m) in all_units:
-        for d in digits:
+        for d in P.unit_digits(u, digits):
             jobs.append((u, d, m, False))
     # vacuity canaries: own units, u64 (quick) / all digits (thorough)
     for u in own_units:
         for m in P.unit_modes(u):
-            for d in (['u64'] if tier == 'quick' else digits):
+            for d in (P.unit_digits(u, digits) if u in P.PAIR_UNITS else ['u64'] if tier == 'quick' else digits):
                 jobs.append((u, d, m, True))
     results = RUN.verify_many(jobs, workers=int(os.environ.get('BNV_WORKERS', '5')))
     baseline = set(load_json(BASELINE, {}).get('proved', []))
@@ -260,7 +267,7 @@ def rebaseline():
     modes = {}
     for u in ov.units:
         for m in P.unit_modes(u):
-            for d in P.ALL_DIGITS:
+            for d in P.unit_digits(u, P.ALL_DIGITS):
                 jobs.append((u, d, m, False))
     results = RUN.verify_many(jobs, workers=int(os.environ.get('BNV_WORKERS', '5')))
     bad = 0
@@ -278,10 +285,14 @@ def rebaseline():
     print(f'baseline: {len(proved)} proved, {bad} not proved')
 
 
-def dev_unit(unit, digit, mode, canary):
+def dev_unit(unit, digit, mode, canary, digit2=None):
     digits = P.ALL_DIGITS if digit == 'all' else digit.split(',')
+    if digit2:
+        # pair units: --digit TARGET --digit2 SOURCE (each may be `all`) -> tags TARGETxSOURCE
+        d2s = P.ALL_DIGITS if digit2 == 'all' else digit2.split(',')
+        digits = [f'{a}x{b}' for a in digits for b in d2s if a != b]
     rc = 0
-    results = RUN.verify_many([(unit, d, mode, canary) for d in digits], workers=4)
+    results = RUN.verify_many([(unit, d, mode, canary) for d in digits], workers=int(os.environ.get('BNV_WORKERS', '4')))
     for res in results:
         print(f"== {unit} {res['digit']} {mode}: verus {res['verus_status']} verified={res['verified']} errors={res['errors']} wall={res['wall_s']:.1f}s file={res['file']}")
         for pb in res['problems']:
@@ -320,6 +331,7 @@ def main(argv=None):
     ap.add_argument('--rebaseline', action='store_true')
     ap.add_argument('--unit', help='developer: verify one unit and print failures')
     ap.add_argument('--digit', default='u64')
+    ap.add_argument('--digit2', help='developer, pair units: second (source) digit type or `all`')
     ap.add_argument('--mode', default='dbg')
     ap.add_argument('--canary', action='store_true')
     a = ap.parse_args(argv)
@@ -327,7 +339,7 @@ def main(argv=None):
         rebaseline()
         return 0
     if a.unit:
-        return dev_unit(a.unit, a.digit, a.mode, a.canary)
+        return dev_unit(a.unit, a.digit, a.mode, a.canary, a.digit2)
     if a.replay:
         from . import cex as CEX
         return CEX.replay(a.replay)
